@@ -15,6 +15,8 @@ if rest:
     meta["history"] = " ".join(rest)
 if rerun:
     assert not subprocess.run(["git", "-C", "/repo", "status", "--short"], stdout=subprocess.PIPE, text=True).stdout.strip()
+    EVBAK = "/root/.evidence_backup"
+    shutil.rmtree(EVBAK, ignore_errors=True); shutil.copytree(f"{VR}/evidence", EVBAK)   # evidence must describe the unchanged tree
     subprocess.run(["git", "-C", "/repo", "apply", f"{d}/patch.diff"], check=True)
     try:
         for p in rerun:
@@ -28,6 +30,7 @@ if rerun:
             print(name, p, r.returncode)
     finally:
         subprocess.run(["git", "-C", "/repo", "checkout", "--", "."])
+        shutil.rmtree(f"{VR}/evidence", ignore_errors=True); shutil.copytree(EVBAK, f"{VR}/evidence")
     meta["detected_by"] = [p for p, v in meta["check_results"].items() if isinstance(v, dict) and v.get("rc")]
     meta["detected_by_own_check"] = bool(meta["check_results"].get(meta["breaks_property"], {}).get("rc"))
 json.dump(meta, open(f"{d}/meta.json", "w"), indent=1)
